@@ -115,6 +115,8 @@ static void print_state(void) {
 }
 
 /* ---------- oracles evaluated on the real state after every step (the property, executed) ---------- */
+#define MAXINADD 64
+static int g_in_add[MAXINADD];      /* thread t is inside POOL_add (round 3) */
 static void step_oracles(void) {
     POOL_ctx* c = g_ctx; int t, nt = zv_nthreads(), awake = 0; size_t p, room;
     if (g_freed) return;
@@ -126,6 +128,16 @@ static void step_oracles(void) {
         if (zv_total_faults() > 0 && POOL_sizeof(c) < g_live_bytes && g_live_bytes - POOL_sizeof(c) <= g_partial_gap) {
             if (!g_sizeof_said) { oracle("POOL_sizeof under-reports the thread array after a POOL_resize in which pthread_create failed"); g_sizeof_said = 1; }
         } else oracle("POOL_sizeof differs from the bytes the pool holds");
+    }
+    /* round 3 (baece04: POOL_resize also broadcasts queuePushCond): "a blocking post returns once capacity exists" - whenever nobody is
+     * inside a critical section, a thread asleep in POOL_add still faces a full queue, or a broadcast of queuePushCond is the next
+     * operation of some thread (before the repair a POOL_resize that raised threadLimit left the poster asleep until a job ended) */
+    if (!c->shutdown && zv_mutex_owner(&c->queueMutex) < 0 && !isQueueFull(c)) {
+        int pendingB = 0, asleep = 0;
+        for (t = 0; t < nt; t++) { void* o; zv_status s = zv_thread_status(t, &o);
+            if (s == ZS_RUN && o == (void*)&c->queuePushCond && zv_thread_op(t) == 'B') pendingB = 1;
+            if (s == ZS_COND && o == (void*)&c->queuePushCond && t < MAXINADD && g_in_add[t]) asleep = 1; }
+        if (asleep && !pendingB) oracle("a thread is asleep in POOL_add although the queue is not full and no wake-up of queuePushCond is on its way");
     }
     if (!c->shutdown) {
         /* no lost wake-up on queuePopCond: min(pending, limit-busy) workers are about to look at the queue */
@@ -208,7 +220,10 @@ static void do_post(char kind, int jobid) {
     if (nrec >= MAXREC) { fprintf(stderr, "c12: too many posts\n"); _exit(7); }
     r = &recs[nrec++]; r->jobid = jobid; r->kind = kind;
     if (kind == 'a') {
+        int const me = zv_self();
+        if (me >= 0 && me < MAXINADD) g_in_add[me] = 1;
         POOL_add(g_ctx, job_fn, r);
+        if (me >= 0 && me < MAXINADD) g_in_add[me] = 0;
         if (g_ctx->shutdown) { r->dropped = 1; dropped_log[ndropped++] = jobid; }
     } else {
         int const ret = POOL_tryAdd(g_ctx, job_fn, r);
